@@ -32,6 +32,7 @@ class FakeNcp:
 
     async def setMulticastTableEntry(self, idx, entry):
         import bellows.types as t
+        await asyncio.sleep(0)          # a real command suspends its caller until the response arrives
         self.writes.append((int(idx), int(entry.multicastId), int(entry.endpoint)))
         a = self.answer
         if a == T_LOST:
@@ -41,6 +42,18 @@ class FakeNcp:
         if a == T_APPLIED:
             raise asyncio.TimeoutError()
         return ((t.sl_Status if self.sl else t.EmberStatus)(a),)
+
+
+# coordinator layouts for Multicast.startup(): endpoint id -> groups the endpoint is a member of (endpoint 0 is skipped by
+# the library; a group may be listed by several endpoints)
+LAYOUTS = [{1: [0x11]}, {1: [0x11], 2: [0x11]}, {1: [0x11, 0x22], 2: [0x22]}, {0: [0x33], 1: [0x11], 2: [0x11, 0x22], 3: [0x11]},
+           {1: [0x11, 0x22, 0x33]}, {}]
+
+
+class FakeCoordinator:
+    def __init__(self, layout):
+        import types
+        self.endpoints = {ep: types.SimpleNamespace(member_of={g: None for g in groups}) for ep, groups in layout.items()}
 
 
 def initial_tables(size):
@@ -63,7 +76,7 @@ class Check(PropertyCheck):
     run_expr = "run_case"
     case_type = "(list (N * N) * list (N * N * N * N * list N))"
     shard = 300
-    rule = ("start-up scan then every subscribe/unsubscribe sequence up to a length bound over 3 groups, table sizes 0..4, "
+    rule = ("start-up (table scan, and Multicast.startup() re-subscribing coordinator layouts in which several endpoints list one group) then every subscribe/unsubscribe sequence up to a length bound over 3 groups, table sizes 0..4, "
             "each write answered {success, rejection (every status of the legacy and of the unified family), timeout (write lost), timeout (write applied)}, from initial NCP tables in "
             "which each group appears at most once; plus random longer sequences incl. unreadable entries; non-trivial = at "
             "least one table write was issued; distinct by (table, op sequence)")
@@ -109,6 +122,13 @@ class Check(PropertyCheck):
                               "ops": [("sub", GROUPS[0], code), ("sub", GROUPS[0], 0), ("unsub", GROUPS[0], code), ("unsub", GROUPS[0], 0)]})
                 cases.append({"table": [(0, 0), (GROUPS[1], 1)], "init": (0, []), "sl": sl,
                               "ops": [("sub", GROUPS[0], code), ("sub", GROUPS[2], 0), ("sub", GROUPS[0], 0)]})
+        # Multicast.startup(coordinator): the table scan followed by the re-subscription of the coordinator's groups
+        for size in sizes:
+            for tbl in initial_tables(size):
+                for li in range(len(LAYOUTS)):
+                    for a in (0, 1, T_LOST):
+                        for after in ([], [("unsub", GROUPS[0], 0)], [("sub", GROUPS[2], 0), ("unsub", GROUPS[0], 0), ("sub", GROUPS[1], 0)]):
+                            cases.append({"table": tbl, "init": (0, []), "ops": [("startup", li, a)] + after})
         nrand = 1200 if tier == "quick" else 12000
         ops_r = self._ops([0, 0, 0x01, 0x70, 0xB5, T_LOST, T_APPLIED])
         for _ in range(nrand):
@@ -151,6 +171,16 @@ class Check(PropertyCheck):
                     await mc._initialize()
                     out.append(snap(0, []))
                     continue
+                if kind == "startup":
+                    ncp.size_status, ncp.read_status = 0, []
+                    ncp.answer = a
+                    try:
+                        await mc.startup(FakeCoordinator(LAYOUTS[g]))
+                        r = 0
+                    except asyncio.TimeoutError:
+                        r = -1
+                    out.append(snap(r, ncp.writes))
+                    continue
                 ncp.answer = a
                 try:
                     if kind == "sub":
@@ -169,6 +199,8 @@ class Check(PropertyCheck):
 
     # ---- model side ---------------------------------------------------------------------
     def model_input(self, case):
+        if any(o[0] == "startup" for o in case["ops"]):
+            return None         # start-up issues several writes in one call: judged by the property predicate
         # the index Python's set.pop() chose is read off the implementation's own write
         obs = case["_obs"]
         ops = [f"(0, {case['init'][0]}, 0, 0, [{';'.join(str(s) for s in case['init'][1])}])"]
@@ -218,6 +250,18 @@ class Check(PropertyCheck):
                 prog = [ge[0] for ge in o["ncp"] if ge[1] != 0]
                 # the property speaks of tables in which each group appears at most once
                 clean, timeouts = len(prog) == len(set(prog)), False
+            if kind == "startup":
+                # the scan happens first; the initial table has each group at most once, and re-subscribing the coordinator's
+                # groups must keep it so, however many endpoints list a group
+                prog = [ge[0] for ge in o["ncp"] if ge[1] != 0]
+                if a == 0 and len(prog) != len(set(prog)):
+                    return f"op {k} startup: a group is programmed into two table indices: {o['ncp']}"
+                if a == 0:
+                    want = {g for ep, gs in LAYOUTS[g].items() if ep != 0 for g in gs} if isinstance(g, int) else set()
+                    have_room = len(set(prog) | want) <= size
+                    if have_room and not want <= set(o["subs"]):
+                        return f"op {k} startup: the coordinator's groups {sorted(want)} are not all subscribed: {sorted(o['subs'])}"
+                timeouts = timeouts or a in (T_LOST, T_APPLIED)
             if a in (T_LOST, T_APPLIED) and o.get("write"):
                 timeouts = True
             used, avail = o["used"], o["avail"]
@@ -229,6 +273,9 @@ class Check(PropertyCheck):
                 programmed = sorted(ge[0] for ge in o["ncp"] if ge[1] != 0)
                 if sorted(o["subs"]) != programmed:
                     return f"op {k} {kind}: host reports {sorted(o['subs'])} but the NCP table has {programmed}"
+            if kind == "startup":
+                prev = o
+                continue
             if prev is not None and kind in ("sub", "unsub"):
                 failed = o["ret"] != 0
                 if failed and len(avail) != len(prev["avail"]):
